@@ -69,13 +69,6 @@ def specStrictEq (x y : F64) : Bool := F64.feq x y
 
 /-! ### Mechanism: canonicalisers (vm.go:392-424) -/
 
-/-- Which expression `intToValue` uses for an `int64` beyond ±2^53 (vm.go:399).
-`raw`  : `return valueFloat(i)`            — the code at the pinned commit
-`canon`: `return floatToValue(float64(i))` — the repaired form (fixes/C05-intToValue-2p53.diff). -/
-inductive Tail where
-  | raw | canon
-deriving DecidableEq, Repr
-
 /-- vm.go:402 `floatToInt`: the conjuncts in source order. -/
 def floatToInt (f : F64) : Option Int :=
   if (!f.isZero || !f.neg)            -- (f != 0 || !math.Signbit(f))
@@ -99,12 +92,15 @@ def floatToValue (f : F64) : Num :=
     else if f.isInf && f.neg then flt F64.negInf
     else flt f
 
-/-- vm.go:392 `intToValue` for an `int64`. -/
-def intToValue (t : Tail) (i : Int) : Num :=
+/-- vm.go:392 `intToValue` for an `int64` (after fix 287714a): beyond ±2^53 the nearest double may again be a
+safe integer (2^53+1 rounds to 2^53), so the tail goes through `floatToValue`. -/
+def intToValue (i : Int) : Num :=
   if -maxInt ≤ i ∧ i ≤ maxInt then int i
-  else match t with
-    | .raw => flt (F64.ofInt i)
-    | .canon => floatToValue (F64.ofInt i)
+  else floatToValue (F64.ofInt i)          -- return floatToValue(float64(i))
+
+/-- `intToValue` BEFORE 287714a (`return valueFloat(i)`), kept only for the regression witnesses. -/
+def intToValuePrefix (i : Int) : Num :=
+  if -maxInt ≤ i ∧ i ≤ maxInt then int i else flt (F64.ofInt i)
 
 /-- vm.go:426 `toNumeric` on a Number. -/
 def toNumeric : Num → Num
@@ -150,6 +146,10 @@ def mapFinds (stored probe : Num) : Bool :=
   let s := normKey stored
   let p := normKey probe
   hash s == hash p && sameAs s p
+
+/-- builtin_array.go `arrayproto_includes` after dd517b9: the search value AND each element are normalised
+(`== _negativeZero → _positiveZero`), then `searchElement.SameAs(val)`. -/
+def includesFinds (probe elem : Num) : Bool := sameAs (normKey probe) (normKey elem)
 
 end Num
 end GojaModel
